@@ -57,3 +57,27 @@ Proof. intros l. rewrite !final_state_snoc. repeat split. Qed.
 Lemma loose_zip_refuted_proof :
   exists l, pz_zip (final_state l) <> loose_zip l.
 Proof. exists [EZip; EPre [120%N]; ENoPre]. vm_compute. discriminate. Qed.
+
+(* ---- the rules regenerated from defs.rs are the hand-written ones ---- *)
+From RG Require Import Model.CliTypes Model.CliExpected Gen.DecisionsCli Model.PreZipGen.
+
+Lemma gen_upd_eq : forall s e, gen_upd s e = upd s e.
+Proof.
+  intros [pre z] e. destruct e as [p| | |]; cbn [gen_upd].
+  - unfold pre_update_value. destruct p as [|b p]; reflexivity.
+  - reflexivity.
+  - reflexivity.
+  - reflexivity.
+Qed.
+
+Lemma gen_final_state_eq : forall l, gen_final_state l = final_state l.
+Proof.
+  intros l. unfold gen_final_state, final_state. generalize pz_init.
+  induction l as [|e l IH]; intros s; cbn [fold_left].
+  - reflexivity.
+  - rewrite gen_upd_eq. apply IH.
+Qed.
+
+Lemma gen_final_state_spec : forall l,
+  gen_final_state l = {| pz_pre := spec_pre l; pz_zip := spec_zip l |}.
+Proof. intros l. rewrite gen_final_state_eq. apply final_state_spec. Qed.
